@@ -69,6 +69,7 @@ class Task:
         self.pred = None
         self.deadline = None
         self.timed_out = False
+        self.fires = 0
         self.enabled_since = w.now
         self.npoints = 0
         self.streak = 0
@@ -146,6 +147,7 @@ class World:
         self._low = -1
         self._rw = list(self.schedule.get("choices", []))
         self._rw_i = 0
+        self._rw_cycle = int(self.schedule.get("cycle", 0))
         self.faults = list(faults or [])
         self.spawn_count = 0
         self.events = []          # (step, kind, data)
@@ -155,6 +157,7 @@ class World:
         self.excluded = {}
         self.atomic_depth = 0
         self.sems = {}            # name -> kernel semaphore
+        self.sem_release_log = []
         self.pipes = []
         self.gates = {}
         self.root = Proc(self, 1000, None, "MainProcess")
@@ -319,6 +322,10 @@ class World:
             c = self._rw[self._rw_i]
             self._rw_i += 1
             return c
+        if self._rw and self._rw_i < self._rw_cycle:
+            c = self._rw[self._rw_i % len(self._rw)]      # cyclic random walk: a short drawn list drives a long run
+            self._rw_i += 1
+            return c
         return None
 
     @staticmethod
@@ -399,7 +406,13 @@ class World:
         timers = [u for u in self.tasks if u.state == "blocked" and u.deadline is not None and u not in en]
         timers.sort(key=lambda u: (u.deadline, u.tid))
         self._vetoed = 0
+        # a due timer is served within T as well: the clock never moves past (earliest pending deadline + T);
+        # established pollers (re-arming 1 ms sleeps that saw no state change) do not hold the clock back
+        steady = [u.deadline for u in timers if not (u.sleeping and u.sleep_cycles >= POLL_JUMP)]
+        tlimit = (min(steady) + T_FAIR) if steady else None
         for u in timers:
+            if tlimit is not None and u.deadline > max(self.now, tlimit):
+                continue
             if u.deadline <= self.now or horizon is None or u.deadline <= horizon:
                 if self.timer_fire_hook is not None:
                     reason = self.timer_fire_hook(u)
@@ -471,6 +484,7 @@ class World:
             if u.deadline > self.now:
                 self.now = u.deadline
             u.timed_out = True
+            u.fires += 1
             self.timers_fired += 1
             self.ev("fire", task=u.name, pid=u.proc.pid, what=u.what, now=self.now,
                     pending=(self.pending_probe() if self.pending_probe is not None else None))
